@@ -190,6 +190,11 @@ class DomFamily:
                 rp = vlib.write_replay(pid, "translator", "UniqueId::now() no longer takes its index by a single INDEX.fetch_add(1, ..) on a static AtomicU32",
                                        ["rbx_types/src/unique_id.rs"], broken="translator pattern for theorem C12_now_distinct_any_schedule (atomic fetch_add step of Model/UidGen.v)")
                 out.violation("the atomic-step model of UniqueId::now() is no longer tied to the source; the concurrent stress found no repeated id", rp, False)
+        # ---- C12 only: DOMs produced by the XML reader (duplicate / colliding UniqueId properties in documents)
+        if pid == "C12" and os.path.exists(os.path.join(vlib.VERIF, "harness", "src", "xmlfile.rs")):
+            xl, xb, xs, _ = xml_oracle_stage(pid, d, seed, tier, [("uid", 150), ("foreign", 100), ("hand", 1)], tag="xu")
+            k, u = report_oracle_lines(pid, out, xl, xb, "xmlfile", "DOMs decoded by rbx_xml (xmlfile-run, streams uid/foreign/hand)")
+            out.coverage["xml_reader_stage"] = {"cases": len(xb), "oracle_lines": len(xl), "known": k, "unlisted": u}
         # ---- report
         if mine:
             cid = mine[0].split(" ")[0]
@@ -1507,3 +1512,163 @@ class BinSpec(SimpleCorr):
 
 REGISTRY["C03"] = BinSpec()
 REGISTRY["C04"] = BinSpec()
+
+
+# =====================================================================================
+# Implementation-side oracle stages shared by the composite properties C06 C07 C12 C15
+# (the XML-side lines all come out of `xmlfile-run`; see notes/xml-format.md)
+# =====================================================================================
+def xml_oracle_stage(pid, d, seed, tier, streams, tag="xo", second_process=False):
+    """runs the real rbx_xml (and, for the `bin` stream, rbx_binary) on generated cases and returns
+    (oracle lines of `pid` as `<case> <pid> <key> <msg>`, {case id: lines}, stats[, texts-differ list])"""
+    mul = 1 if tier == "quick" else 10
+    blocks = []
+    cdir = os.path.join(vlib.VERIF, "corpus", "xmlfile")
+    if os.path.isdir(cdir):
+        for f in sorted(os.listdir(cdir)):
+            blocks += vlib.read_blocks(os.path.join(cdir, f))
+    gen = os.path.join(d, tag + ".gen")
+    for s, n in streams:
+        rc, o, _ = vlib.run([vlib.harness_bin(), "xmlfile-gen", "--seed", str(seed), "--cases", str(n * mul), "--stream", s,
+                             "--prefix", s[:1] + tag, "--out", gen], timeout=3000)
+        if rc != 0:
+            raise RuntimeError("xmlfile-gen failed: " + o[-1500:])
+        blocks += vlib.read_blocks(gen)
+    cases = os.path.join(d, tag + ".cases")
+    vlib.write_blocks(cases, blocks)
+    outs = []
+    for k in range(2 if second_process else 1):
+        obs, orc, st = [os.path.join(d, "%s%d%s" % (tag, k, x)) for x in (".impl", ".oracle", ".stats")]
+        rc, o, _ = vlib.run("ulimit -s unlimited 2>/dev/null; exec '%s' xmlfile-run '%s' '%s' '%s' '%s'" % (vlib.harness_bin(), cases, obs, orc, st), timeout=6000)
+        if rc != 0:
+            raise RuntimeError("harness xmlfile-run failed (rc=%d): %s" % (rc, o[-1500:]))
+        outs.append((obs, orc, st))
+    lines = [l.rstrip("\n") for l in open(outs[0][1]) if len(l.split(" ", 3)) >= 3 and l.split(" ", 3)[1] == pid]
+    stats = json.load(open(outs[0][2]))
+    differ = []
+    if second_process:
+        a, b = dict(vlib.read_blocks(outs[0][0] + ".texts")), dict(vlib.read_blocks(outs[1][0] + ".texts"))
+        differ = [cid for cid in a if a.get(cid) != b.get(cid)]
+    return lines, dict(blocks), stats, differ
+
+
+def report_oracle_lines(pid, out, lines, bmap, kind, stage):
+    """classifies `<case> <pid> <key> <msg>` lines against known-findings; one violation per unlisted key"""
+    known = vlib.known_keys(pid)
+    seen_known, unlisted = {}, {}
+    for l in lines:
+        t = l.split(" ", 3)
+        key = t[2] if len(t) > 2 else "?"
+        if key in known:
+            seen_known.setdefault(key, l)
+        else:
+            unlisted.setdefault(key, l)
+    for key, l in seen_known.items():
+        out.known.append("key=%s %s (reproduced by %s: %s)" % (key, known[key], stage, l[:200]))
+    for key, l in unlisted.items():
+        cid = l.split(" ")[0]
+        rp = vlib.write_replay(pid, kind, "implementation oracle (%s): %s" % (stage, l), bmap.get(cid, [l]))
+        out.violation("the implementation violates %s (%s): %s" % (pid, stage, l[:300]), rp, True)
+    return sorted(seen_known), sorted(unlisted)
+
+
+class ImplOracleProperty:
+    """a property decided by theorems (Properties/<pid>.v, proof stage run by ./check) plus implementation-side
+    oracle stages; subclasses define stages(pid, out, tier, seed, d) -> [(stage name, lines, bmap, kind)]"""
+    rule = ""
+    assumptions = []
+
+    def run(self, pid, out, tier, seed, broken):
+        d = workdir(pid)
+        total, samples, kk, uu = 0, [], [], []
+        for stage, lines, bmap, kind, n in self.stages(pid, out, tier, seed, d):
+            total += n
+            k, u = report_oracle_lines(pid, out, lines, bmap, kind, stage)
+            kk += k; uu += u
+            for cid in list(bmap)[:2]:
+                samples.append({"stage": stage, "case": cid, "lines": bmap[cid][:6]})
+        out.coverage.update({"traces_validated_against_impl": total, "evaluations": total, "distinct_nontrivial": total,
+                             "rule": self.rule, "samples": samples[:4], "known_findings_reproduced": kk,
+                             "unlisted_failure_classes": uu})
+        out.assumptions += self.assumptions
+        if broken and not out.violations:
+            rp = vlib.write_replay(pid, "proof", broken.split("\n")[0], broken.split("\n"), broken=broken.split("\n")[0])
+            out.violation(broken.split("\n")[0], rp, False)
+
+    def replay(self, pid, path):
+        meta, body = vlib.read_replay(path)
+        d = workdir(pid)
+        vlib.build_harness()
+        kind = meta.get("kind")
+        if kind not in ("xmlfile", "binfile"):
+            log("replay names a broken obligation, not an input: " + meta.get("broken", meta.get("what", "")))
+            return 1
+        cases = os.path.join(d, "replay.cases")
+        vlib.write_blocks(cases, [("x", [l for l in body if l.strip()])])
+        obs, orc, st = [os.path.join(d, "replay" + x) for x in (".impl", ".oracle", ".stats")]
+        vlib.run([vlib.harness_bin(), kind + "-run", cases, obs, orc, st], timeout=3000)
+        bad = [l.rstrip("\n") for l in open(orc) if (" " + pid + " ") in l]
+        for l in bad:
+            log("oracle: " + l)
+        return 1 if bad else 0
+
+
+class CrossFormat(ImplOracleProperty):
+    rule = ("DOMs inside C06's quantifier (database classes, serializable non-migrating properties under canonical or alias names, values of the declared "
+            "type, Ref/SharedString topology) are written by rbx_binary and by rbx_xml, both files are read back by the real readers and the two decoded DOMs "
+            "are compared instance by instance (tree, order, class, name, every explicitly set property under its canonical name; NaNs as a class; "
+            "binary-only defaults ignored); every case counts as non-trivial")
+    assumptions = ["value-level agreement of the two decoders is decided per case on the implementation; the theorem part is the schema level (both descriptor lookups agree on every coherent database)"]
+
+    def pre(self, pid, out, tier, seed):
+        import translate
+        translate.regenerate_all(required=True)
+
+    def stages(self, pid, out, tier, seed, d):
+        lines, bmap, st, _ = xml_oracle_stage(pid, d, seed, tier, [("bin", 500), ("dom", 300)])
+        out.coverage["generator"] = {k: v for k, v in st.items() if k.startswith("c06") or k.startswith("oracle_C06") or k == "cases"}
+        return [("cross-format run (xmlfile-run, stream bin)", lines, bmap, "xmlfile", st.get("c06_checked", len(bmap)))]
+
+
+REGISTRY["C06"] = CrossFormat()
+
+
+class Migration(ImplOracleProperty):
+    rule = ("for every class/legacy-property pair of the database whose serialization is Migrate (12) and every value of the legacy type (all items of Enum.Font, "
+            "BrickColor numbers, both booleans, URIs incl. empty), with and without the new property present and in both element orders: XML write path "
+            "(DOM -> rbx_xml -> read back), XML read path (hand-built documents with the legacy element), and the binary write/read paths; the decoded DOM must "
+            "hold exactly the new property with the migrated value (explicit new value wins) and never the legacy name")
+    assumptions = ["the four paths are exercised on the implementation; the theorem part is about the migration function and tables (regenerated from migration.rs / brick_color.rs / the database)"]
+
+    def pre(self, pid, out, tier, seed):
+        import translate
+        translate.regenerate_all(required=True)
+
+    def stages(self, pid, out, tier, seed, d):
+        lines, bmap, st, _ = xml_oracle_stage(pid, d, seed, tier, [("mig", 600)])
+        out.coverage["generator"] = {k: v for k, v in st.items() if k.startswith("c15") or k.startswith("oracle_C15") or k == "cases"}
+        res = [("XML write and read paths (xmlfile-run, stream mig)", lines, bmap, "xmlfile",
+                st.get("c15_checked_write", 0) + st.get("c15_checked_read", 0))]
+        res += binary_migration_stage(pid, d, seed, tier)
+        return res
+
+
+def binary_migration_stage(pid, d, seed, tier):
+    """binary write/read paths of C15: binfile cases restricted to classes with migrating properties"""
+    if not os.path.exists(os.path.join(vlib.VERIF, "harness", "src", "binfile.rs")):
+        return []
+    gen = os.path.join(d, "bm.cases")
+    n = 400 if tier == "quick" else 4000
+    rc, o, _ = vlib.run([vlib.harness_bin(), "binfile-gen", "--seed", str(seed), "--cases", str(n), "--migrating", "--prefix", "m", "--out", gen], timeout=3000)
+    if rc != 0:
+        return []
+    obs, orc, st = [os.path.join(d, "bm" + x) for x in (".impl", ".oracle", ".stats")]
+    rc, o, _ = vlib.run([vlib.harness_bin(), "binfile-run", gen, obs, orc, st], timeout=6000)
+    if rc != 0:
+        raise RuntimeError("harness binfile-run failed: " + o[-1500:])
+    lines = [l.rstrip("\n") for l in open(orc) if len(l.split(" ", 3)) >= 3 and l.split(" ", 3)[1] == pid]
+    blocks = vlib.read_blocks(gen)
+    return [("binary write and read paths (binfile-run --migrating)", lines, dict(blocks), "binfile", len(blocks))]
+
+
+REGISTRY["C15"] = Migration()
